@@ -1,6 +1,7 @@
 mod c19;
 mod case;
 mod driver;
+mod engine_b;
 mod exec;
 mod gen;
 mod gen14;
@@ -40,6 +41,27 @@ fn main() {
          let json_mode = args.iter().any(|a| a == "--json");
          let file = args.iter().skip(1).find(|a| !a.starts_with("--")).expect("replay <file>");
          let text = std::fs::read_to_string(file).unwrap_or_else(|e| driver::harness_error(&format!("cannot read {}: {}", file, e)));
+         if let Ok(job) = serde_json::from_str::<engine_b::MiriJob>(&text) {
+            if job.engine == "miri" {
+               std::fs::create_dir_all("/verif/work").ok();
+               let out = engine_b::run_job(&job, std::path::Path::new("/verif/work/miri_replay.log")).unwrap_or_else(|e| driver::harness_error(&e));
+               if json_mode {
+                  println!("REPLAY-JSON {}", serde_json::json!({"class": out.class, "detail": out.detail, "hash": 0}));
+                  return;
+               }
+               match out.class {
+                  Some(c) => {
+                     println!("violation: {}: {}", c, out.detail);
+                     println!("VIOLATION property={} replay={}", job.check, file);
+                     std::process::exit(1);
+                  },
+                  None => {
+                     println!("Engine B replay: {} executions, no report", out.ok_runs);
+                     return;
+                  },
+               }
+            }
+         }
          let case: case::Case = serde_json::from_str(&text).unwrap_or_else(|e| driver::harness_error(&format!("cannot parse {}: {}", file, e)));
          exec::pin_process(case.proc_first_pool);
          let obs = exec::execute(&case);
